@@ -28,7 +28,7 @@ CHECKS = {
  "C02": ("drv_mt xfree scenario + vf_sched", "schedule-controlled execution of real threads (every mi_atomic op / yield / lock a switch point; targeted, uniform and PCT policies; spurious weak-CAS failures), parallel runs with injected delays, ThreadSanitizer; pattern + lifetime-replay oracles",
          "~13000 executions of 24 tiny programs (1 owner, 2-3 freeing threads) under ENUMERATED preemptions (script policy: every single preemption of a freeing thread, every pair within 3 switch points x every choice of who runs in the windows, sampled owner preemptions / spurious CAS failures); 1200 baton schedules (2-4 threads, 40-300 ops each) on release and debug builds + 12 parallel delay/off runs (4-12 threads, 20-60k ops) + 6 TSan runs per quick run; every block carries a unique-id pattern verified by its current holder; "
          "all alloc/free events are replayed in timestamp order against an interval map (a block handed out while an intersecting one is live is a violation).", "3 C02"),
- "C08": ("drv_mt prodcons scenario + vf_sched", "schedule-controlled producer/consumer executions; heap walk at quiescence (no area may remain after one forced collect) and per-round area series (bounded memory)",
+ "C08": ("drv_mt prodcons scenario + vf_sched", "schedule-controlled producer/consumer executions; heap walk at quiescence (no area may remain after one forced collect), per-round area series (bounded memory) and an exact reuse scenario (area count before remote frees vs after re-allocating as many blocks, own and adopted pages)",
          "Tiny programs with enumerated preemptions (see C02) whose owner heap must count no used block at the end; remote frees into a heap being deleted (heap-delete scenario) must not be lost either; one owner heap, 1-7 remotely freeing consumers, <= L outstanding blocks; first remote free into full pages, frees racing the owner's list take-over and collects are hit constantly under the targeted policy.", "3 C08"),
  "C09": ("drv_mt exit scenario + vf_sched", "schedule-controlled thread termination (natural exit with the destructor running concurrently, or mi_thread_done as a scheduled step) with live blocks handed to survivors and successors adopting abandoned segments; abandoned walk / OS ledger at the end",
          "T slots x several generations of threads under 5 option settings (reclaim-on-free, forced abandonment, OS segments, reclaim percentage); blocks of terminated threads are read and freed by others; finally (all other threads terminated, main and one fresh thread per sub-process force-collected) nothing abandoned may be left, no arena block may still be in use and no OS segment may stay mapped.", "3 C09"),
@@ -49,7 +49,7 @@ CHECKS = {
  "C16": ("drv_arith (includes src/static.c)", "exhaustive / boundary enumeration of the compiled size-class and address arithmetic against reference arithmetic (128-bit multiply, plain division), UBSan/ASan build; address recovery on real pages",
          "All sizes 0..2*MI_MEDIUM_OBJ_SIZE_MAX and every boundary up to PTRDIFF_MAX; span bins 0..512; mi_fast_divide for all bin sizes x offsets; utilities on grids + random inputs; _mi_ptr_segment / _mi_segment_page_of / "
          "_mi_page_ptr_unalign on real pages of all 48 small/medium bins at >200 slice positions, large and huge pages, aligned pointers; 4 build variants.", "3 C16"),
- "C19": ("ovr/ovr_matrix.cpp, ovr/ovr_c.c under LD_PRELOAD and the static override object", "runtime monitor inside overriding processes (22 allocating x 11 releasing/resizing entry points x sizes x alignments, libc/libstdc++ internal allocators), dynamic-linker binding log (LD_DEBUG=bindings, LD_BIND_NOW), whole programs with/without preload",
+ "C19": ("ovr/ovr_matrix.cpp, ovr/ovr_c.c under LD_PRELOAD and the static override object", "runtime monitor inside overriding processes (29 allocating x 20 releasing/resizing entry points incl. every operator new/delete form and glibc's __libc_* aliases x sizes x alignments, libc/libstdc++ internal allocators), dynamic-linker binding log (LD_DEBUG=bindings, LD_BIND_NOW), whole programs with/without preload",
          "Every pointer from every C/C++ entry point must be memory of the override (mi_is_in_heap_region, mi_usable_size, malloc_usable_size) and survive any other entry point; every binding of an allocation symbol from any object must go to the override library; "
          "a debug override library reports any foreign pointer; python/sort/ls/gcc/awk behave identically under the preload.", "3 C19"),
  "C20": ("drv_opts (includes src/static.c) + vf/optref.py", "differential check of option parsing against a reference grammar (9000 (option, value) pairs per run over all 37 options and their legacy names), ASan/UBSan on the formatter with exactly sized buffers, every mi_stats_get_json buffer size, all print functions",
@@ -99,7 +99,7 @@ def main():
             {"name": "vf_sched", "path": "harness/vf_sched.c", "serves_properties": ["C02", "C08", "C09", "C10", "C14"], "kind_free_text": "schedule controller"},
         ],
         "checks": checks,
-        "notes": "Runtime monitoring and sanitizers only. See DESIGN.md; known_findings.json lists the genuine defects found: F1-F30 repaired by fix: commits in /repo; K1 (C03, debug builds), K2 (C10: blocks of a deleted heap that could not be merged, freed by the same thread) and K3 (C13/C10: forced abandonment takes pages away from first-class heaps) recorded as known findings and exercised by dedicated cases; seeded/ holds 99 confirmed seeded changes and the outcome of the checks against them.",
+        "notes": "Runtime monitoring and sanitizers only. See DESIGN.md; known_findings.json lists the genuine defects found: F1-F39 repaired by fix: commits in /repo; K1-K7 recorded as known findings (not small/safe to repair), each exercised by a dedicated case whose key the entry matches exactly; seeded/ holds the confirmed seeded changes of seven rounds of sub-agents and the outcome of the checks against them (seeded/RESULTS.json, DESIGN.md 7.1); benign/ holds property-preserving changes on which every check must stay silent (tools/run_benign.sh, DESIGN.md 7.4); tools/coverage.py reports which allocator lines the checks drive (coverage/SUMMARY.md, DESIGN.md 7.3).",
         "not_applicable": na,
     }
     with open(os.path.join(VERIF, "MANIFEST.json"), "w") as fh:
